@@ -110,6 +110,18 @@ func isTimeNowVar(v ssa.Value) bool {
 
 // tableElem: v is an *endpoint read from me.endpoints in this function: a range value, or the value of a lookup.
 func tableElem(v ssa.Value) (kind string, lk *ssa.Lookup, ok bool) {
+	// `for id := range table { e := table[id] … }`: the value under a key the scan of the same, unchanged table yields
+	if l, isL := stripConv(v).(*ssa.Lookup); isL && !l.CommaOk && isLoadOf(l.X, "multiEndpoint.endpoints") {
+		if ke, isE := stripConv(l.Index).(*ssa.Extract); isE && ke.Index == 1 {
+			if nx, isN := ke.Tuple.(*ssa.Next); isN {
+				ensureEquiv(l.Parent())
+				if rng, isR := nx.Iter.(*ssa.Range); isR && isLoadOf(rng.X, "multiEndpoint.endpoints") && kstr(rng.X) == kstr(l.X) {
+					return "range", nil, true
+				}
+			}
+		}
+		return "", nil, false
+	}
 	e, isE := stripConv(v).(*ssa.Extract)
 	if !isE {
 		return "", nil, false
@@ -328,20 +340,39 @@ func checkC13(c *Ctx, w *World) {
 	})
 	var topA, top *ssa.Phi
 	var elem ssa.Value
+	var accs []*ssa.Phi
 	for _, l := range loopsOf(m.muc) {
+		var lelem ssa.Value
 		for _, in := range l.Header.Instrs {
-			if ph, ok := in.(*ssa.Phi); ok && shortType(ph.Type()) == "*multiendpoint.endpoint" {
-				switch ph.Comment {
-				case "topA":
-					topA = ph
-				case "top":
-					top = ph
+			if nx, ok := in.(*ssa.Next); ok && isLoadOf(nx.Iter.(*ssa.Range).X, "multiEndpoint.endpoints") {
+				for _, r := range *nx.Referrers() {
+					e, ok := r.(*ssa.Extract)
+					if ok && e.Index == 2 {
+						lelem = e
+					}
+					if ok && e.Index == 1 && lelem == nil {
+						// scan by key: the element is the table's value under that key
+						for _, kr := range *e.Referrers() {
+							if lk, isL := kr.(*ssa.Lookup); isL {
+								if k, _, isT := tableElem(lk); isT && k == "range" {
+									lelem = lk
+								}
+							}
+						}
+					}
 				}
 			}
-			if nx, ok := in.(*ssa.Next); ok {
-				for _, r := range *nx.Referrers() {
-					if e, ok := r.(*ssa.Extract); ok && e.Index == 2 {
-						elem = e
+		}
+		if lelem == nil {
+			continue
+		}
+		elem = lelem
+		// the accumulators: loop-carried endpoint variables of the table scan that start as nil
+		for _, in := range l.Header.Instrs {
+			if ph, ok := in.(*ssa.Phi); ok && shortType(ph.Type()) == "*multiendpoint.endpoint" {
+				for ei, e := range ph.Edges {
+					if !l.Blocks[l.Header.Preds[ei]] && isNilConst(stripConv(e)) {
+						accs = append(accs, ph)
 					}
 				}
 			}
@@ -351,8 +382,45 @@ func checkC13(c *Ctx, w *World) {
 		c.fail("C13.decision", "maybeUpdateCurrent: anchors", p.pos(m.muc.Pos()), "lookup of the current endpoint or the table iteration not found")
 		return
 	}
-	// identify the two accumulator phis structurally if the comments are unavailable: the one whose update is guarded by status is topA
+	// which accumulator is which is decided by structure, not by variable names: the one that takes the element only when
+	// the element is available is the top AVAILABLE endpoint, the other one the top endpoint
 	isElem := isVal(elem)
+	if len(accs) == 2 {
+		cs0 := newCondSpace(m.muc, recOf(eqAtom("elAvailable", statusOf(isElem), constIs(m.available))), "elAvailable")
+		onlyAvail := func(ph *ssa.Phi) bool {
+			q := ph
+			for _, e := range ph.Edges {
+				if mq, ok := e.(*ssa.Phi); ok && mq != ph {
+					q = mq
+				}
+			}
+			n, all := 0, true
+			for i, e := range q.Edges {
+				if e != elem {
+					continue
+				}
+				n++
+				pred := q.Block().Preds[i]
+				edge := cs0.False()
+				for si, sb := range pred.Succs {
+					if sb == q.Block() {
+						edge = or(edge, cs0.EdgeCond(pred, si))
+					}
+				}
+				if imp, _ := cs0.Implies(edge, cs0.Atom("elAvailable")); !imp {
+					all = false
+				}
+			}
+			return n > 0 && all
+		}
+		a0, a1 := onlyAvail(accs[0]), onlyAvail(accs[1])
+		switch {
+		case a0 && !a1:
+			topA, top = accs[0], accs[1]
+		case a1 && !a0:
+			topA, top = accs[1], accs[0]
+		}
+	}
 	isCur := func(v ssa.Value) bool { return isExtractOf(stripConv(v), curLk, 0) }
 	// accumulators as seen inside / after the loop: the header phi or the merge phi of the body
 	accOf := func(ph *ssa.Phi) vpred {
@@ -600,17 +668,18 @@ func checkNonEmpty(m *mectx) {
 		nerr := 0
 		errResult := len(fn.Signature.Results().At(fn.Signature.Results().Len()-1).Name()) >= 0
 		_ = errResult
-		for _, r := range returnsOf(fn) {
-			errv := r.Results[len(r.Results)-1]
+		for _, vr := range cs.VirtualReturns() {
+			// (a merged `return result, err` is split per way of arriving)
+			errv := vr.Vals[len(vr.Vals)-1]
 			if nilErr, _ := allOrigins(errv, isConstNilOrigin); nilErr {
-				if imp, _ := cs.Implies(cs.Reach(r), cs.Not(cs.Atom("empty"))); !imp {
+				if imp, _ := cs.Implies(vr.Cond, cs.Not(cs.Atom("empty"))); !imp {
 					ok1 = false
 				}
 				continue
 			}
 			nerr++
 			for _, e := range effects {
-				if mayPrecede(e, r) {
+				if mayPrecede(e, vr.Ret) && cs.Satisfiable(and(cs.Reach(e), vr.Cond)) {
 					ok1 = false
 				}
 			}
